@@ -3,7 +3,7 @@ Oracle: panic hook + catch_unwind inside the worker, process exit status for abo
 *logical* cost (allocation count / bytes, deterministic) for the time bound."""
 import math, json
 from .. import core, corpus
-from ..gen import grel, gtext
+from ..gen import grel, gtext, gfeat
 
 ENTRIES_SRC = ["tokens", "pl", "fmt", "rq", "compile"]
 MAX_N = 4096
@@ -80,6 +80,52 @@ def _src_shard(items, targets):
                     viols.append(v)
             if "abort" in r or "panic" in r and entry != "compile":
                 pass
+    w.close()
+    return viols, obs
+
+
+def _feat_shard(items, targets):
+    """Well-formed unusual programs: every entry point, every dialect, with and without formatting / signature."""
+    w = core.Worker()
+    viols = []
+    obs = {"feature_calls": 0, "feature_programs": len(items), "feature_ok": 0, "feature_err": 0, "feature_tags": {}, "watchdog": 0}
+    seen = set()
+    for (tag, src) in items:
+        plan = [("entry", e, None, None) for e in ENTRIES_SRC[:-1]]
+        for t in targets:
+            plan.append(("compile", "compile", t, {}))
+        plan.append(("compile", "compile", "sql.generic", {"format": True, "signature": True}))
+        plan.append(("compile", "compile", "sql.sqlite", {"format": True, "display": "ansi_color"}))
+        anyok = False
+        for (kind, entry, target, opts) in plan:
+            if kind == "entry":
+                r = call_entry(w, entry, src, target)
+            else:
+                req = {"op": "compile", "src": src, "target": target}
+                req.update(opts)
+                r = w.call(req, timeout=10.0)
+                if "sql" in r:
+                    r = dict(r, ok=True)
+                elif "errors" in r:
+                    r = dict(r, ok=False, empty_reason=any(not (e.get("reason") or "").strip() for e in r["errors"]) or not r["errors"])
+            obs["feature_calls"] += 1
+            if "watchdog" in r:
+                obs["watchdog"] += 1
+                continue
+            if r.get("ok") is True:
+                obs["feature_ok"] += 1
+                anyok = True
+            elif r.get("ok") is False:
+                obs["feature_err"] += 1
+            v = classify(r, entry, src, target, extra={"opts": opts} if opts else None, origin="feature")
+            if v:
+                key = (v["symptom"], v["shape"])
+                if key in seen:
+                    v["witness"] = None
+                seen.add(key)
+                viols.append(v)
+        if anyok:
+            obs["feature_tags"][tag] = obs["feature_tags"].get(tag, 0) + 1
     w.close()
     return viols, obs
 
@@ -245,6 +291,11 @@ def run(tier, seed):
     for v, o in res:
         run.extend(v)
         core.merge_counts(obs, o)
+    feats = gfeat.programs()
+    res = core.run_shards(_feat_shard, [dict(items=feats[i::N], targets=targets) for i in range(N)])
+    for v, o in res:
+        run.extend(v)
+        core.merge_counts(obs, o)
     fams = sorted(gtext.FAMILIES)
     res = core.run_shards(_family_shard, [dict(fams=fams[i::N], entries=["tokens", "pl", "fmt", "compile"]) for i in range(N)])
     for v, o in res:
@@ -266,7 +317,7 @@ def run(tier, seed):
     run.violations = list(best.values())
     fam = obs.pop("families", {})
     run.coverage = {
-        "evaluations": obs.get("calls", 0) + obs.get("family_calls", 0) + obs.get("json_calls", 0),
+        "evaluations": obs.get("calls", 0) + obs.get("family_calls", 0) + obs.get("json_calls", 0) + obs.get("feature_calls", 0),
         "distinct_nontrivial": obs.get("ok", 0) and len({s for s, o in items}),
         "rule": "one evaluation = one guarded call of one public entry point (prql_to_tokens, prql_to_pl, pl_to_prql, pl_to_rq, compile per dialect, json::to_pl/to_rq followed by the next stage) on one input; "
                 "distinct non-trivial = distinct source strings fed to the entry points (corpus, random relational programs, token-level mutants, random token soup), counted only if at least one call returned Ok",
@@ -295,7 +346,12 @@ def replay(case):
         w.close()
         v, _ = _family_shard([case["family"]], [case["entry"]])
         return v
-    r = call_entry(w, case["entry"], src, case.get("target"), timeout=20.0)
+    if case.get("opts"):
+        req = {"op": "compile", "src": src, "target": case.get("target")}
+        req.update(case["opts"])
+        r = w.call(req, timeout=20.0)
+    else:
+        r = call_entry(w, case["entry"], src, case.get("target"), timeout=20.0)
     w.close()
     v = classify(r, case["entry"], src, case.get("target"), {"family": case["family"], "n": case["n"]} if case.get("family") else None, origin=case.get("origin"))
     return [v] if v else []
